@@ -48,6 +48,11 @@ EPS32 = 2.0 ** -22
 
 
 shrink_hints = bw.shrink_hints
+ISOLATE = True          # every case in a forked child: consecutive runs of a case share process state, cases do not
+
+
+def child_cleanup():
+    bw.cleanup()
 
 
 def prepare():
